@@ -1344,7 +1344,7 @@ pub fn run_stress(n: u64, rng: &mut Rng, args: &Args, stamp: Arc<AtomicU64>, out
     let mut w = World::build(&cfg, stamp.clone(), 0, hang_s, true)?;
     let nres = cfg.res.len();
     let cap = args.extra_usize("stress_attempts", 300) as u64;
-    let nops = 20 + rng.below(80);
+    let nops = 20 + rng.below(args.extra_usize("stress_ops", 80) as u64);
     let confirm = StdDuration::from_millis(100);
     // controller-side knowledge
     let mut paused_confirmed = vec![false; nres];
